@@ -10,7 +10,9 @@ From Coq Require Import List Bool NArith ZArith Arith.
 Import ListNotations.
 Require Import PV.Lines.Text PV.Lines.Suppress PV.Lines.Place PV.Lines.Fixer.
 Require Import PV.Proofs.LinesSuppress PV.Proofs.LinesPlace PV.Proofs.LinesText PV.Proofs.LinesFixer PV.Proofs.LinesFixerGen.
-Require Import PV.Gen.Codes PV.Gen.ApplyGen.
+Require Import PV.Gen.Codes PV.Gen.ApplyGen PV.Gen.CopyGen.
+Require Import PV.Ast.Copy PV.Proofs.AstCopy.
+Require Import PV.Lines.Range PV.Gen.RangeGen PV.Proofs.LinesRange.
 
 Notation IGN := IGNORE_COMMENT.
 Notation nm := code_name.
@@ -177,3 +179,82 @@ Theorem C16_unrepaired_two_codes_diverge :
   old_iterate 150 all_but_tail three_codes_file (firstn 2 three_codes_raw) = None.
 Proof. exact unrepaired_two_codes_diverge. Qed.
 Print Assumptions C16_unrepaired_two_codes_diverge.
+
+(* ---- replace_node / remove_node at the level of lines ------------------ *)
+
+(* analysis_lib.get_line_range_for_node (regenerated from the source) is the model's *)
+Theorem C16_range_gen_is_model :
+  (forall a b, RangeGen.is_part_of_same_node a b = Range.is_part_of_same_node a b) /\
+  (forall lines first last0, RangeGen.line_range lines first last0 = Range.line_range lines first last0).
+Proof. exact range_gen_is_model. Qed.
+Print Assumptions C16_range_gen_is_model.
+
+(* the statement's line range is one consecutive, in-bounds range starting at its first line
+   (first = node.lineno or the first decorator; last0 = max(first + 1, end_lineno of the children)) *)
+Theorem C16_line_range_consecutive : forall lines first last0,
+  1 <= first -> first < last0 -> last0 - 1 <= length lines ->
+  exists last, Range.line_range lines first last0 = seq first (S (last - 1 - first))
+    /\ last0 <= last /\ last - 1 <= length lines.
+Proof. exact line_range_consecutive. Qed.
+Print Assumptions C16_line_range_consecutive.
+
+(* Replacement(get_line_range_for_node(statement), new_lines) applied to the file: the lines before the
+   statement, then new_lines (the decompiled statement; [] for a removal; the `pass` line), then the
+   lines after the range — every line outside the range is kept, in place and in order *)
+Theorem C16_replace_node_lines : forall (f : file) first last0 new_lines rest,
+  1 <= first -> first < last0 -> last0 - 1 <= length f ->
+  exists last, last0 <= last /\ last - 1 <= length f /\
+    Fixer.apply_changes (mk_repl (Range.line_range f first last0) (Some new_lines) :: rest) f
+    = firstn (first - 1) f ++ new_lines ++ skipn (last - 1) f.
+Proof. exact replace_node_lines. Qed.
+Print Assumptions C16_replace_node_lines.
+
+(* ---- the AST copier behind replace_node --------------------------------- *)
+(* NodeTransformer.generic_visit rebuilds every node from its visited fields; ReplaceNodeTransformer
+   returns the replacement for the one node to replace.  Model: PV.Ast.Copy (nodes with identity,
+   fields holding a node / a list / another value, list entries that may be None or other non-node
+   values).  The body of the list loop is regenerated from the source (Gen/CopyGen.v). *)
+
+(* the translated loop body is the model's, and the loop as a whole is an entry-by-entry map:
+   nothing is dropped, duplicated or reordered; None entries (Dict.keys for `**m`, kw_defaults for
+   keyword-only parameters without default) are kept *)
+Theorem C16_copier_gen_is_model : forall visit value acc,
+  CopyGen.item_body visit value acc = Copy.item_body visit value acc.
+Proof. exact gen_item_body. Qed.
+Print Assumptions C16_copier_gen_is_model.
+
+Theorem C16_copier_list_is_map : forall target replacement l,
+  CopyGen.copy_list (fun n => VAst (rn target replacement n)) l = rn_items target replacement l
+  /\ items_length (rn_items target replacement l) = items_length l.
+Proof. exact (fun t r l => conj (gen_copy_list_is_map t r l) (rn_items_length t r l)). Qed.
+Print Assumptions C16_copier_list_is_map.
+
+(* copy_id: the copier is the identity on every (sub)tree that does not contain the node to replace *)
+Theorem C16_copy_id : forall target replacement,
+  (forall n, occ target n = false -> rn target replacement n = n) /\
+  (forall l, occ_items target l = false -> rn_items target replacement l = l).
+Proof. exact (fun t r => conj (copy_id t r) (copy_id_items t r)). Qed.
+Print Assumptions C16_copy_id.
+
+(* the node to replace becomes the replacement; every other node keeps identity, kind and fields *)
+Theorem C16_copier_replaces_target : forall target replacement,
+  (forall n, node_id n = target -> rn target replacement n = replacement) /\
+  (forall i k fs, i <> target -> rn target replacement (Node i k fs) = Node i k (rn_fields target replacement fs)).
+Proof. exact (fun t r => conj (rn_root t r) (rn_keeps_node t r)). Qed.
+Print Assumptions C16_copier_replaces_target.
+
+(* with unique node identities the replacement happens at most once, and it happens iff the node occurs *)
+Theorem C16_replaced_at_most_once : forall target n,
+  NoDup (ids n) -> hits target n <= 1 /\ (hits target n = 0 <-> occ target n = false).
+Proof. exact (fun t n ND => conj (replaced_at_most_once t n ND) (proj1 (replaced_iff_occurs t) n)). Qed.
+Print Assumptions C16_replaced_at_most_once.
+
+Example C16_copier_keeps_none_entries :
+  (* Dict(keys=[None, k], values=[m, <target>]) with the second value replaced *)
+  let d := Node 1 7 (FCons (FList (ICons VNone (ICons (VAst (Node 2 3 FNil)) INil)))
+                    (FCons (FList (ICons (VAst (Node 3 4 FNil)) (ICons (VAst (Node 4 5 FNil)) INil))) FNil)) in
+  rn 4 (Node 9 6 FNil) d
+  = Node 1 7 (FCons (FList (ICons VNone (ICons (VAst (Node 2 3 FNil)) INil)))
+             (FCons (FList (ICons (VAst (Node 3 4 FNil)) (ICons (VAst (Node 9 6 FNil)) INil))) FNil)).
+Proof. vm_compute. reflexivity. Qed.
+Print Assumptions C16_copier_keeps_none_entries.
